@@ -82,10 +82,16 @@ def path_indices(ff: FuncFacts, p: Path, depth: int = 0) -> set[int]:
                 continue
             # a call that receives several fields yields a mixed value: forget what came before
             if depth < 3 and isinstance(o.node, ast.Call):
-                mixed: set[int] = set()
-                for arg in list(o.node.args) + [k.value for k in o.node.keywords]:
-                    for q in ff.paths(arg, spine_only=True):
-                        mixed |= path_indices(ff, q, depth + 1)
+                # memoised per (function facts, call node, depth): the same call is met on many paths
+                memo = ff.__dict__.setdefault("_mixed_memo", {})
+                mk = (id(o.node), depth)
+                mixed = memo.get(mk)
+                if mixed is None:
+                    mixed = set()
+                    for arg in list(o.node.args) + [k.value for k in o.node.keywords]:
+                        for q in ff.paths(arg, spine_only=True):
+                            mixed |= path_indices(ff, q, depth + 1)
+                    memo[mk] = mixed
                 if len(mixed) > 1:
                     out = set()
         if o.kind == "attr" and o.name in ("U_", "V_"):
